@@ -274,6 +274,9 @@ def mutate(rnd, text):
             ['if aa:', '    function fq():', '    endif', '    endfunction'],
             ['if aa:', '    function fq():', '        else:', '    endfunction', 'endif'],
             ['while aa:', 'function fq():', 'endwhile', 'endfunction'],
+            ['while aa:', '    function fq():', '        if bb:', '            break', '        endif', '    endfunction', 'endwhile'],
+            ['for xx in yy:', '    function fq():', '        if bb:', '            xx = 1', '        else:', '            continue', '        endif', '    endfunction', 'endfor'],
+            ['while aa:', '    if cc:', '        function fq():', '            if bb:', '                break', '            endif', '        endfunction', '    endif', 'endwhile'],
             ['function fq():', '    if aa:', 'endfunction', '    endif'],
             ['function fq():', '    function fr():', '    endfunction', 'endfunction'],
             ['endfunction'], ['else:'], ['elif aa:'], ['endfor'], ['break'], ['continue'], ['endif'], ['endwhile'],
